@@ -319,13 +319,17 @@ def programs(rng, quick):
 # tracing wrapper: the container history of a real run
 # ------------------------------------------------------------------------------------------------
 
+FOREIGN = (str, bytes, tuple, type(None))
+
+
 class Unsupported(Exception):
     pass
 
 
 class Trace:
     def __init__(self):
-        self.prog, self.obs, self.n, self.unsupported, self.sites = [], [], 0, [], {}
+        self.prog, self.obs, self.n, self.unsupported, self.sites, self.lost = [], [], 0, [], {}, {}
+        self.foreign_discards = 0
 
     def reg(self):
         self.n += 1
@@ -381,6 +385,17 @@ class TSet:
     def _lose(self, why):
         if self._r is not None:
             self._t.unsupported.append(why)
+            f = sys._getframe(2)       # which local variable of which site function holds this set
+            for _ in range(6):
+                if f is None:
+                    break
+                if f.f_code.co_name in SITE_NAMES:
+                    names = sorted(n for n, v in f.f_locals.items() if v is self) or ['?']
+                    for n in names:
+                        key = f'{f.f_code.co_name}:{n}:{why}'
+                        self._t.lost[key] = self._t.lost.get(key, 0) + 1
+                    break
+                f = f.f_back
         self._r = None
 
     def _log(self, name, *a, obs=None):
@@ -467,6 +482,12 @@ class TSet:
             else:
                 ks = list(o)
                 self._s.difference_update(o if isinstance(o, (set, frozenset, dict)) else ks)
+            # keys of a type that never compares equal to an int (e.g. the 'cache' entry `_format_bond` leaves in the dict
+            # `_smiles` passes here) cannot be members of an int-only set: discarding them only looks up, the table is untouched
+            foreign = [k for k in ks if type(k) in FOREIGN]
+            if foreign and self._r is not None:
+                self._t.foreign_discards += len(foreign)
+                ks = [k for k in ks if type(k) not in FOREIGN]
             try:
                 self._log('dupl', *_ints(ks))
             except Unsupported:
@@ -729,6 +750,15 @@ def site_outputs(m):
             'rings_graph': sets(m.rings_graph), 'skin_graph': sets(m.skin_graph),
             'ring_atoms': [(n, a.in_ring, sorted(a.ring_sizes)) for n, a in m.atoms()],
             'smiles_order': list(m.smiles_atoms_order)}
+
+
+def reviewed_key_kinds():
+    """(function short name, variable) -> 'int' | 'intTuple' from the reviewed list Spec/SetSites.lean"""
+    import re
+    from ..core import LEAN
+    txt = (LEAN / 'ChythonModel' / 'Spec' / 'SetSites.lean').read_text()
+    body = txt[txt.index('def reviewedSetSiteKeys'):]
+    return {(f.split('.')[-1], v): k for _, f, v, k in re.findall(r'\("([^"]+)", "([^"]+)", "([^"]+)", \.(\w+)\)', body)}
 
 
 def replay_sites(smi):
